@@ -180,7 +180,7 @@ func parsePossibility(input *input, relation *Relation) error {
 			return nil
 		}
 		/* Not a control, let's append */
-		ret.Name += string(input.Next())
+		ret.Name += string([]byte{input.Next()})
 	}
 }
 
@@ -205,7 +205,7 @@ func parseSubstvar(input *input, relation *Relation) error {
 			relation.Possibilities = append(relation.Possibilities, *ret)
 			return nil
 		}
-		ret.Name += string(input.Next())
+		ret.Name += string([]byte{input.Next()})
 	}
 }
 
@@ -224,7 +224,7 @@ func parseMultiarch(input *input, possi *Possibility) error {
 			possi.Arch = arch
 			return nil
 		default:
-			name += string(input.Next())
+			name += string([]byte{input.Next()})
 		}
 	}
 	return nil
@@ -340,7 +340,7 @@ func parsePossibilityNumber(input *input, version *VersionRelation) error {
 		case ')':
 			return nil
 		}
-		version.Number += string(input.Next())
+		version.Number += string([]byte{input.Next()})
 	}
 }
 
@@ -402,7 +402,7 @@ func parsePossibilityArch(input *input, possi *Possibility) error {
 			)
 			return nil
 		}
-		arch += string(input.Next())
+		arch += string([]byte{input.Next()})
 	}
 }
 
@@ -450,7 +450,7 @@ func parsePossibilityStage(input *input, stageSet *StageSet) error {
 			stageSet.Stages = append(stageSet.Stages, stage)
 			return nil
 		}
-		stage.Name += string(input.Next())
+		stage.Name += string([]byte{input.Next()})
 	}
 }
 
